@@ -67,6 +67,7 @@ type Op struct {
 	Excl  bool   `json:"excl,omitempty"`
 	Trunc bool   `json:"trunc,omitempty"`
 	Data  []byte `json:"data,omitempty"`
+	Off   int    `json:"off,omitempty"` // write: descriptor offset before the call; writeat: offset written at
 	Raw   string `json:"raw,omitempty"` // the strace line it came from (not compared)
 	Sys   string `json:"sys,omitempty"` // syscall name
 	Nth   int    `json:"nth,omitempty"` // ordinal of this call among the calls of that name in the child (for kill injection)
@@ -80,6 +81,8 @@ func (o Op) coq() string {
 		return fmt.Sprintf("OOpenDir %d%%nat", o.Fd)
 	case "write":
 		return fmt.Sprintf("OWrite %d%%nat %s", o.Fd, hx.Bytes(o.Data))
+	case "writeat":
+		return fmt.Sprintf("OWriteAt %d%%nat %d%%nat %s", o.Fd, o.Off, hx.Bytes(o.Data))
 	case "fsync":
 		return fmt.Sprintf("OFsync %d%%nat", o.Fd)
 	case "close":
@@ -214,7 +217,8 @@ func abstract(calls []call, dir, target string, names map[string]int) (ops []Op,
 		names[p] = id
 		return id, true
 	}
-	fds := map[int64]int{} // real fd -> id
+	fds := map[int64]int{}  // real fd -> id
+	offs := map[int64]int{} // real fd -> file offset of the descriptor
 	nextFd := 0
 	count := map[string]int{}
 	pathArg := func(s string) (string, bool) {
@@ -270,6 +274,10 @@ func abstract(calls []call, dir, target string, names map[string]int) (ops []Op,
 				continue
 			}
 			fds[c.ret] = nextFd
+			offs[c.ret] = 0
+			if has("O_APPEND") {
+				offs[c.ret] = -1 // always the end of the file
+			}
 			add(Op{K: "open", Fd: nextFd, Name: id, Creat: has("O_CREAT"), Excl: has("O_EXCL"), Trunc: has("O_TRUNC")})
 			nextFd++
 		case "write":
@@ -283,7 +291,24 @@ func abstract(calls []call, dir, target string, names map[string]int) (ops []Op,
 				notes = append(notes, "write buffer not fully printed: "+c.raw)
 				continue
 			}
-			add(Op{K: "write", Fd: id, Data: b[:c.ret]})
+			rfd := mustInt(c.args, 0)
+			add(Op{K: "write", Fd: id, Data: b[:c.ret], Off: offs[rfd]})
+			if offs[rfd] >= 0 {
+				offs[rfd] += int(c.ret)
+			}
+		case "pwrite64":
+			id, ok := fds[mustInt(c.args, 0)]
+			if !ok {
+				continue
+			}
+			b, okb := unq(c.args[1])
+			off := mustInt(c.args, 3)
+			if !okb || int64(len(b)) < c.ret || off < 0 {
+				add(Op{K: "other"})
+				notes = append(notes, "pwrite not understood: "+c.raw)
+				continue
+			}
+			add(Op{K: "writeat", Fd: id, Data: b[:c.ret], Off: int(off)})
 		case "fsync", "fdatasync":
 			if id, ok := fds[mustInt(c.args, 0)]; ok {
 				add(Op{K: "fsync", Fd: id})
@@ -422,8 +447,6 @@ func (st *fsState) step(o Op) bool {
 			}
 			if o.Trunc {
 				st.inodes[i] = &inode{dur: nd.dur, vol: nil, dirty: true}
-			} else if len(nd.vol) != 0 {
-				return false
 			}
 			st.fds[o.Fd] = i
 			return true
@@ -449,6 +472,22 @@ func (st *fsState) step(o Op) bool {
 		}
 		nd := st.inodes[i]
 		st.inodes[i] = &inode{dur: nd.dur, vol: append(append([]byte{}, nd.vol...), o.Data...), dirty: true}
+		return true
+	case "writeat":
+		i, ok := st.fds[o.Fd]
+		if !ok || i < 0 || st.inodes[i] == nil {
+			return false
+		}
+		nd := st.inodes[i]
+		if o.Off > len(nd.vol) {
+			return false
+		}
+		v := append([]byte{}, nd.vol[:o.Off]...)
+		v = append(v, o.Data...)
+		if o.Off+len(o.Data) < len(nd.vol) {
+			v = append(v, nd.vol[o.Off+len(o.Data):]...)
+		}
+		st.inodes[i] = &inode{dur: nd.dur, vol: v, dirty: nd.dirty || len(o.Data) > 0}
 		return true
 	case "fsync":
 		i, ok := st.fds[o.Fd]
@@ -515,6 +554,25 @@ func runFrom(start *startState, ops []Op) *fsState {
 		}
 	}
 	return st
+}
+
+// normalise turns a write whose descriptor offset is not the end of the file into a
+// positional write (the model's OWrite appends).
+func normalise(start *startState, ops []Op) []Op {
+	st := runFrom(start, nil)
+	out := make([]Op, len(ops))
+	copy(out, ops)
+	for i, o := range out {
+		if st != nil && o.K == "write" && o.Off >= 0 {
+			if ino, ok := st.fds[o.Fd]; ok && ino >= 0 && st.inodes[ino] != nil && len(st.inodes[ino].vol) != o.Off {
+				out[i].K = "writeat"
+			}
+		}
+		if st != nil && !st.step(out[i]) {
+			st = nil
+		}
+	}
+	return out
 }
 
 // dirStates enumerates what the whole directory (every name) can hold after a crash in st.
@@ -716,6 +774,38 @@ func genData(r *hx.Rand, keyLen int) *session.Data {
 	return d
 }
 
+// sameLength returns a session that differs from d and serialises to exactly as many bytes.
+func sameLength(d *session.Data, r *hx.Rand) *session.Data {
+	flip := func(v int64) int64 {
+		s := []byte(strconv.FormatInt(v, 10))
+		for try := 0; try < 20; try++ {
+			i := r.Intn(len(s))
+			if s[i] < '0' || s[i] > '9' || (i == 0 || s[i-1] == '-') {
+				continue
+			}
+			s[i] = byte('0' + (int(s[i]-'0')+1+r.Intn(9))%10)
+			n, err := strconv.ParseInt(string(s), 10, 64)
+			if err == nil && n != v {
+				return n
+			}
+		}
+		return v
+	}
+	base := len(marshal(d))
+	for try := 0; try < 10; try++ {
+		n := *d
+		// differences at both ends of the file (Config.Date near the start, Salt at the end), so
+		// that a cut in the middle mixes a new head with an old tail
+		n.Salt = flip(d.Salt)
+		n.Config.Date = int(flip(int64(d.Config.Date)))
+		nb := marshal(&n)
+		if len(nb) == base && !bytes.Equal(nb, marshal(d)) {
+			return &n
+		}
+	}
+	return nil
+}
+
 func marshal(d *session.Data) []byte {
 	var m session.StorageMemory
 	l := session.Loader{Storage: &m}
@@ -814,7 +904,11 @@ func classify(path string, c content, old, new *session.Data) (int, string) {
 	return clsOther, "loaded a session that is neither the previous nor the new one"
 }
 
-func (e *env) one(kind string, in caseIn) { e.analyse(kind, in, nil, nil) }
+func (e *env) one(kind string, in caseIn) {
+	if p, v := hx.Recover(func() { e.analyse(kind, in, nil, nil) }); p {
+		e.c.Violate("harness-panic", fmt.Sprintf("the C31 harness panicked on a case (%v); the case is the replay", v), -1, 0, in)
+	}
+}
 
 // analyse traces one save of in.New starting from start (nil: a directory holding in.Old or
 // nothing) and judges every crash point; root is the top-level case for replay files.
@@ -877,6 +971,7 @@ func (e *env) analyse(kind string, in caseIn, start *startState, root *caseIn) {
 		return
 	}
 	ops, notes := abstract(parseTrace(txt), dir, path, names)
+	ops = normalise(start, ops)
 	for _, n := range notes {
 		c.Note(n)
 	}
@@ -962,7 +1057,7 @@ func (e *env) analyse(kind string, in caseIn, start *startState, root *caseIn) {
 		for k := 0; k <= len(ops); k++ {
 			var plist []int
 			plist = append(plist, -1)
-			if k < len(ops) && ops[k].K == "write" {
+			if k < len(ops) && (ops[k].K == "write" || ops[k].K == "writeat") {
 				plist = append(plist, selLens(len(ops[k].Data))...)
 			}
 			for _, p := range plist {
@@ -1018,6 +1113,7 @@ func (e *env) analyse(kind string, in caseIn, start *startState, root *caseIn) {
 				}
 				return m
 			}())
+			kops = normalise(start, kops)
 			same := len(kops) == k && strings.Contains(txt, "killed by SIGKILL")
 			for i := 0; same && i < k; i++ {
 				same = kops[i].K == ops[i].K && bytes.Equal(kops[i].Data, ops[i].Data)
@@ -1074,7 +1170,7 @@ func (e *env) analyse(kind string, in caseIn, start *startState, root *caseIn) {
 		for model := 0; model <= 1; model++ {
 			for k := 0; k <= len(ops); k++ {
 				plist := []int{-1}
-				if k < len(ops) && ops[k].K == "write" {
+				if k < len(ops) && (ops[k].K == "write" || ops[k].K == "writeat") {
 					plist = append(plist, selLens(len(ops[k].Data))...)
 				}
 				for _, p := range plist {
@@ -1328,8 +1424,17 @@ func main() {
 				in.Old = in.New // saving the same session again
 			}
 		}
+		if in.HasOld && i%4 == 2 {
+			// the new session has exactly the size of the one it replaces (only salt / date digits
+			// change: the usual case in practice); the system-call sequence is observed for this
+			// relation between old and new content too
+			if sl := sameLength(in.Old, c.Rng); sl != nil {
+				in.New = sl
+				c.Count("gen:same-length")
+			}
+		}
 		e.one("gen", in)
 	}
-	c.Obs.Rule = "one case = one real FileStorage.StoreSession traced with strace (previous session present/absent, auth key 0..256 bytes, config with 0..2 DC options, non-ASCII strings); evaluations = oracle judgements of one possible file content at one crash point (Loader.Load is called once per distinct content of a case, see load-calls); non-trivial = distinct (observed sequence, previous present, crash model, system-call boundary strictly inside the sequence, partial-write length, size); crash points = every boundary + write prefixes {0,1,n/2,n-1}; both models; the first cases are additionally SIGKILLed for real on entry of every system call; two-step: for the first cases every distinct directory (all names, leftover temporary files included) a crash of the save can leave is materialised, a complete save of a shorter and of a longer session is run on it for real and must load as exactly that session, and the next save is traced and crashed again from the directory with the biggest leftover (correspondence case with leftovers)"
+	c.Obs.Rule = "one case = one real FileStorage.StoreSession traced with strace (previous session present/absent, new session shorter / longer / of exactly the same serialized length as the previous one, auth key 0..256 bytes, config with 0..2 DC options, non-ASCII strings); evaluations = oracle judgements of one possible file content at one crash point (Loader.Load is called once per distinct content of a case, see load-calls); non-trivial = distinct (observed sequence, previous present, crash model, system-call boundary strictly inside the sequence, partial-write length, size); crash points = every boundary + write prefixes {0,1,n/2,n-1}; both models; the first cases are additionally SIGKILLed for real on entry of every system call; two-step: for the first cases every distinct directory (all names, leftover temporary files included) a crash of the save can leave is materialised, a complete save of a shorter and of a longer session is run on it for real and must load as exactly that session, and the next save is traced and crashed again from the directory with the biggest leftover (correspondence case with leftovers)"
 	c.Finish()
 }
